@@ -7,6 +7,8 @@
                    uncommitted tags are never observed);
      - outs_ok   : every committed write returned the result the sequential map gives
                    (keys have a single owner, so that result is known: success);
+     - single_load_ok (Protocol.v) : a read transaction is ONE load: all its entry points (Has, Route, Reverse,
+                   Lookup, Iter ...) report one version of an object, also across a commit by another thread;
      - no panic / deadlock in any goroutine. *)
 Require Import List Bool Arith NArith.
 Import ListNotations.
@@ -63,7 +65,7 @@ Definition model_agrees (c : hcase) : bool :=
   let '(G, h, bad) := c in history_ok h.
 
 Definition spec_ok (c : hcase) : bool :=
-  let '(G, h, bad) := c in history_ok h && atomic_ok G h && reads_ok h && outs_ok h && negb bad.
+  let '(G, h, bad) := c in history_ok h && atomic_ok G h && single_load_ok h && reads_ok h && outs_ok h && negb bad.
 
 Definition mismatches (cs : list hcase) : list nat := true_idx (map (fun c => negb (model_agrees c)) cs).
 Definition spec_violations (cs : list hcase) : list nat := true_idx (map (fun c => negb (spec_ok c)) cs).
@@ -84,3 +86,10 @@ Definition h_stale_read : list chev := [C 0; W1 0 0 1; C 0; W1 0 0 2; C 1; R1 1 
 Definition h_non_monotone : list chev := [C 0; W1 0 0 1; C 0; W1 0 0 2; C 1; R1 1 0 2; C 1; R1 1 0 1].
 (* a legal concurrent history: the read overlaps the second write and may see either version *)
 Definition h_good : list chev := [C 0; W1 0 0 1; C 0; C 1; R1 1 0 1; W1 0 0 2; C 1; R1 1 0 2; C 2; C 1; R1 1 0 2; R1 2 0 2].
+(* one read transaction (ONE load) whose Reverse / Lookup answered from the tree published meanwhile (version 2) and
+   whose Has / Route / Iter answered from the tree it started on (version 1): accepted by history_ok (the read
+   overlaps the write), rejected by single_load_ok; objects 11 and 12 are in no group, so atomic_ok is silent *)
+Definition h_two_loads : list chev :=
+  [C 0; W1 0 11 1; C 1; C 0; W1 0 11 2; HRet 1 (ResR [(11, 1%N); (11, 2%N); (11, 1%N)] tt)].
+Definition h_one_load : list chev :=
+  [C 0; W1 0 11 1; C 1; C 0; W1 0 11 2; HRet 1 (ResR [(11, 1%N); (12, 0%N); (11, 1%N)] tt)].
